@@ -331,26 +331,37 @@ def AOpt.isTarget : AOpt → Bool
   | .jump .. | .goto .. | .logLevel .. | .setMark .. | .toSource .. => true
   | _ => false
 
+/-- `-m <name>` naming the rule's own protocol. -/
+def isPM (pn : Option Str) : AOpt → Bool
+  | .mExplicit n => some (lower n) == pn
+  | _ => false
+
+/-- Options that belong to the protocol match. -/
+def inPG (pn : Option Str) (o : AOpt) : Bool := o.isProtoMatch || isPM pn o
+
+/-- Options of the other matches (`-m state --state …`). -/
+def inOG (pn : Option Str) (o : AOpt) : Bool := !o.isHead && !o.isTarget && !inPG pn o
+
+def byRank (l : List AOpt) : List AOpt := isort (fun a b => decide (a.rank ≤ b.rank)) l
+
+/-- The protocol match and its options: `-m <proto>` is printed once if anything loaded the match. -/
+def protoGroup (pn : Option Str) (loaded : Bool) (pOpts : List OptW) : List OptW :=
+  match pn with
+  | some p => if loaded then ⟨.no, s "-m", [p]⟩ :: pOpts else pOpts
+  | none => pOpts
+
 /-- The kernel's option list.  Head options in fixed order; then the matches in the order in which
 the user's line loaded them, each followed by its own options: the protocol match (loaded by an
 explicit `-m <proto>` or implicitly by the first port, flag or icmp-type option; printed once as
 `-m <proto>`) and the other matches (`-m state --state …`); then target and target options. -/
 def kernelOpts (cfg : KCfg) (r : ARule) : List OptW :=
   let pn := protoOf cfg r
-  let isPM (o : AOpt) : Bool := match o with
-    | .mExplicit n => some (lower n) == pn
-    | _ => false
-  let byRank (l : List AOpt) := isort (fun a b => decide (a.rank ≤ b.rank)) l
-  let inPG (o : AOpt) : Bool := o.isProtoMatch || isPM o
-  let inOG (o : AOpt) : Bool := !o.isHead && !o.isTarget && !inPG o
   let head := (byRank (r.filter AOpt.isHead)).map (AOpt.kernel cfg)
   let pOpts := (byRank (r.filter AOpt.isProtoMatch)).map (AOpt.kernel cfg)
-  let pGroup := match pn with
-    | some p => if r.any inPG then ⟨.no, s "-m", [p]⟩ :: pOpts else pOpts
-    | none => pOpts
-  let oGroup := (r.filter inOG).map (AOpt.kernel cfg)
+  let pGroup := protoGroup pn (r.any (inPG pn)) pOpts
+  let oGroup := (r.filter (inOG pn)).map (AOpt.kernel cfg)
   let tgt := (byRank (r.filter AOpt.isTarget)).map (AOpt.kernel cfg)
-  let pFirst := r.findIdx inPG ≤ r.findIdx inOG
+  let pFirst := r.findIdx (inPG pn) ≤ r.findIdx (inOG pn)
   head ++ (if pFirst then pGroup ++ oGroup else oGroup ++ pGroup) ++ tgt
 
 def userOpts (r : ARule) : List OptW := r.map AOpt.user
@@ -387,8 +398,8 @@ def AOpt.wf : AOpt → Bool
   | .sport ps _ _ | .dport ps _ _ => ps.wf
   | .syn n _ => n                       -- only `! --syn` (the unnegated form is the excluded point F-C05s)
   | .icmpType t => plainTok t && t.all (fun c => isDigit c || c == '/')
-  | .mExplicit name => plainTok name
-  | .state l => !l.isEmpty && l.eraseDups.length == l.length
+  | .mExplicit name => name = s "state" || lower name = s "tcp" || lower name = s "udp" || lower name = s "icmp"
+  | .state l => !l.isEmpty && decide l.Nodup
   | .jump t | .goto t => plainTok t
   | .logLevel lvl _ => canonNum lvl
   | .setMark hex x v =>
@@ -397,7 +408,7 @@ def AOpt.wf : AOpt → Bool
     (!x || (let (_, m, f) := cutChar v '/'; !f || lower m == s "0xffffffff"))
   | .toSource ip => ipTok ip
 
-def nodupKeys (l : List OptW) : Bool := (l.map (·.key)).eraseDups.length == l.length
+def nodupKeys (l : List OptW) : Bool := decide (l.map (·.key)).Nodup
 
 /-- A rule of the grammar: every option well formed and no option key repeated in either
 spelling (the pair map of the code keeps only the last value of a key). -/
